@@ -58,9 +58,9 @@ fn run_case(ctx: &mut Ctx, dom: &str, a: &[Arg]) {
         "gettag" => dom_cast::run_gettag(ctx, a),
         // the constructors and builders exist with the crates' `builder` feature only
         #[cfg(feature = "builder")]
-        "ctor" | "hctor" | "build" | "hbuild" | "newboxed" | "clone" => dom_build::run(ctx, dom, a),
+        "ctor" | "hctor" | "build" | "hbuild" | "newboxed" | "clone" | "cloneparsed" => dom_build::run(ctx, dom, a),
         #[cfg(not(feature = "builder"))]
-        "ctor" | "hctor" | "build" | "hbuild" | "newboxed" | "clone" => dom_sized::run(ctx, dom, a),
+        "ctor" | "hctor" | "build" | "hbuild" | "newboxed" | "clone" | "cloneparsed" => dom_sized::run(ctx, dom, a),
         _ => ctx.out.push("BADDOMAIN".into()),
     }
 }
